@@ -43,7 +43,9 @@ def gen_configs(tier, rng):
                          # cases x grid goes through either sowing entry point
                          "entry": rng.choice(["sow_combos", "sow_cases"]) if kind == "casesgrid" else "auto",
                          # the batch request is made when the crop is created, or with the sow call
-                         "where": rng.choice(["ctor", "ctor", "sow"])})
+                         "where": rng.choice(["ctor", "ctor", "sow"]),
+                         # a list of cases over ONE argument may name it by a bare string and list bare values
+                         "bare": kind == "cases" and rng.random() < 0.35})
     # invalid requests (rejected by the code, error branch of the model)
     for how, v in [("bs", 0), ("bs", -2), ("nb", 0), ("nb", -1)]:
         cfgs.append({"n": 5, "how": how, "v": v, "kind": "grid", "shuffle": False, "extras": "none", "dims_seed": 1})
@@ -60,6 +62,9 @@ def build_inputs(cfg):
     n = cfg["n"]
     if cfg["kind"] == "grid":
         combos, cases = C.make_grid(C.factor_shapes(n, rng)), None
+    elif cfg["kind"] == "cases" and cfg.get("bare"):
+        combos = []
+        cases = [{"alpha": (i * 7) % 101} for i in range(n)]
     elif cfg["kind"] == "cases":
         combos = []
         cases = [{"k": i, "j": (i * 7) % 5} for i in range(n)]
@@ -100,7 +105,10 @@ def observe(cfg, tmp):
         crop = C.Crop(fn=_fn, **kw)
     obs = {"cfg": cfg}
     try:
-        if cases is not None and not combos:
+        if cases is not None and not combos and cfg.get("bare"):
+            crop.sow_cases("alpha", [c["alpha"] for c in cases], constants=sow_consts, verbosity=0, **skw)
+            eff_shuffle = False
+        elif cases is not None and not combos:
             # list of cases through sow_cases (dict spelling -> fn_args inferred from the case keys)
             crop.sow_cases(("k", "j"), [(c["k"], c["j"]) for c in cases], constants=sow_consts, verbosity=0, **skw)
             if cfg["shuffle"]:
@@ -134,7 +142,9 @@ def observe(cfg, tmp):
     if farmer is not None:
         farmer.fn = rec
         over = dict(sow_consts or {})
-        if cases is not None and not combos:
+        if cases is not None and not combos and cfg.get("bare"):
+            farmer.run_cases([c["alpha"] for c in cases], fn_args="alpha", constants=over, verbosity=0)
+        elif cases is not None and not combos:
             farmer.run_cases([(c["k"], c["j"]) for c in cases], fn_args=("k", "j"), constants=over, verbosity=0)
         elif cfg["extras"] == "runner-override":
             farmer.run_combos(combos, cases=cases, constants=over, verbosity=0)
@@ -142,7 +152,9 @@ def observe(cfg, tmp):
             xyzpy.combo_runner(rec, combos, cases=cases, constants=all_consts, verbosity=0)
         farmer.fn = _fn
     else:
-        if cases is not None and not combos:
+        if cases is not None and not combos and cfg.get("bare"):
+            xyzpy.case_runner(rec, "alpha", [c["alpha"] for c in cases], constants=sow_consts, verbosity=0)
+        elif cases is not None and not combos:
             xyzpy.case_runner(rec, ("k", "j"), [(c["k"], c["j"]) for c in cases], constants=sow_consts, verbosity=0)
         else:
             xyzpy.combo_runner(rec, combos, cases=cases, constants=sow_consts, verbosity=0)
